@@ -1501,6 +1501,10 @@ func (e *MetaCDC) isRunningTask(taskID string) bool {
 
 func (e *MetaCDC) pauseTaskWithReason(taskID, reason string, currentStates []meta.TaskState) error {
 	log.Info("pause task", zap.String("task_id", taskID), zap.String("reason", reason))
+	if taskID == "" {
+		// the empty id matches all tasks in the meta store, and the first of them would be updated
+		return errors.New("the task id is empty")
+	}
 	err := store.UpdateTaskState(
 		e.metaStoreFactory.GetTaskInfoMetaStore(context.Background()),
 		taskID,
